@@ -298,7 +298,7 @@ def run(v, tier, seed, g):
             except OSError:
                 pass
     # ---- the optimiser MODEL (Opt.v) against optimizer.py: every captured optimize() call, node by node --------
-    oc = optcorr.run(kc + [c for c in corpus.PINNED if c not in kc] + corpus.random_cases(seed + 2, 10 if tier == "quick" else 150), "C17m")
+    oc = optcorr.run(kc + [c for c in (corpus.PINNED[::2] if tier == "quick" else corpus.PINNED) if c not in kc] + corpus.random_cases(seed + 2, 6 if tier == "quick" else 150), "C17m")
     v.oblige(oc["matched"] == oc["calls"] and not oc["errors"] and oc["calls"] > 0, max(oc["calls"], 1))
     for e in oc["errors"][:3]:
         v.violation(f"optimizer-model-harness:{e[0]}", f"the optimiser correspondence could not be evaluated: {e[1]}", {"error": e}, no_input=True)
